@@ -433,6 +433,63 @@ def lat_from_pick(geo, grid, pick, mode):
 T_LEN, L_LEN = 2, 3
 
 
+# --------------------------------------------------------------------------- every derived attribute, by introspection
+# inventories of what happens to be materialised (legitimately history-dependent), not derived values
+INVENTORY = {"dims", "sizes", "coordinates", "connectivity", "descriptors", "parsed_attrs", "attrs"}
+
+
+def grid_attributes():
+    """Every public property of the Grid class except the inventories, in definition order: a newly added or newly
+    cached attribute is included automatically."""
+    ux = hux.import_ux()
+    return [n for n, v in vars(ux.Grid).items() if isinstance(v, property) and not n.startswith("_") and n not in INVENTORY]
+
+
+def read_attr(g, name):
+    """-> ('value', normalised) | ('raises', exception class name)."""
+    try:
+        v = getattr(g, name)
+        if hasattr(v, "values") and hasattr(v, "dims"):
+            return "value", (tuple(v.dims), np.asarray(v.values))
+        if isinstance(v, np.ndarray) or isinstance(v, (list, tuple)):
+            return "value", ((), np.asarray(v))
+        if isinstance(v, (int, float, str, bool, np.generic)) or v is None:
+            return "value", ((), np.asarray(v))
+        return "value", ((), np.asarray(type(v).__name__))
+    except Exception as e:  # noqa
+        return "raises", type(e).__name__
+
+
+def same_read(a, b):
+    """Two reads agree: same outcome class; values with equal dims, shape and entries (floats to 1e-12, NaN = NaN)."""
+    if a[0] != b[0]:
+        return False
+    if a[0] == "raises":
+        return True
+    (da, va), (db, vb) = a[1], b[1]
+    if da != db or va.shape != vb.shape:
+        return False
+    if va.dtype.kind == "f" or vb.dtype.kind == "f":
+        x, y = va.astype(float), vb.astype(float)
+        return bool(np.all((np.abs(x - y) <= TOL) | (np.isnan(x) & np.isnan(y))))
+    return bool(np.array_equal(va, vb))
+
+
+def make_dataset(ux, grid, specs):
+    """A UxDataset holding face-, node- and edge-centred tracer variables together."""
+    import xarray as xr
+
+    parts, meta = {}, []
+    for j, spec in enumerate(specs):
+        da, dim, L, dims_in = make_data(ux, grid, spec)
+        # inner dimensions get their own names per variable so that ranks can differ
+        ren = {d: "%s_%d" % (d, j) for d in da.dims if d not in ("n_face", "n_node", "n_edge")}
+        name = "t_%s_%d" % (spec["kind"], j)
+        parts[name] = xr.DataArray(da.values, dims=[ren.get(d, d) for d in da.dims])
+        meta.append((name, dim, L, [ren.get(d, d) for d in dims_in], spec["kind"]))
+    return ux.UxDataset(xr.Dataset(parts), uxgrid=grid), meta
+
+
 def make_data(ux, grid, spec):
     """Tracer data: value = 100 * element index + 10 * t + l.  spec: kind, rank, axis (position of the grid dim)."""
     dim = {"face": "n_face", "node": "n_node", "edge": "n_edge"}[spec["kind"]]
@@ -721,6 +778,8 @@ def _record_case(case):
             return {"id": case["id"], "_skip": "materialise %s on the source raised %s" % (step, type(e).__name__)}
         pre.append(step)
         stores.append(store_of(grid))
+    for name in case.get("pre_attrs", []):
+        read_attr(grid, name)  # whatever it does (value or exception) is part of the history
     if pre:
         rec["pre"] = pre
         if "holes" in pre:
@@ -807,7 +866,10 @@ def _record_case(case):
             rec["faces"] = runs[0]
             rec["runs"] = runs
             return finish(rec, info, stores, case)
-        if data:
+        dataset = case.get("dataset")
+        if dataset:
+            target, ds_meta = make_dataset(ux, grid, dataset)
+        elif data:
             uxda, dim, L, dims_in = make_data(ux, grid, data)
             target = uxda
         else:
@@ -829,7 +891,7 @@ def _record_case(case):
         rec["err"] = "select"
         info["error"] = "%s: %s" % (type(e).__name__, str(e)[:160])
         return finish(rec, info, stores, case)
-    g2 = out.uxgrid if data else out
+    g2 = out.uxgrid if (data or dataset) else out
     stores.append(store_of(grid))
     stores.append(store_of(g2))
     order = VARS[case.get("rot", 0) % len(VARS):] + VARS[: case.get("rot", 0) % len(VARS)]
@@ -857,11 +919,27 @@ def _record_case(case):
     rec["res"] = res
     if errors:
         info["access_errors"] = errors
-    if data:
+    if dataset:
+        rec["datas"] = []
+        for name, dim, L, dims_in, dkind in ds_meta:
+            try:
+                d = project_data(ux, out[name], dim, L, dims_in, g2, dkind)
+                d["flags"]["dataset_is_uxdataset"] = isinstance(out, ux.UxDataset)
+            except Exception as e:  # noqa: the variable is missing or cannot be laid out along its own dimension
+                d = {"kind": dkind, "vals": [], "L": int(L), "flags": {"projectable": False}}
+                info.setdefault("data_errors", {})[name] = "%s: %s" % (type(e).__name__, str(e)[:120])
+            rec["datas"].append(d)
+    elif data:
         try:
             rec["data"] = project_data(ux, out, dim, L, dims_in, g2, data["kind"])
         except Exception as e:  # noqa
             return {"id": case["id"], "_machinery": "data projection: %s: %s" % (type(e).__name__, str(e)[:200])}
+    if case.get("read_all") and ctxt.get("ref") is not None:
+        # every lazily derived public attribute: the result reports what the same selection on a pristine source reports
+        names = grid_attributes()
+        k0 = case.get("rot", 0) % len(names)
+        for name in names[k0:] + names[:k0]:
+            rec["res"]["flags"]["same_" + name] = same_read(read_attr(g2, name), read_attr(ctxt["ref"], name))
     if "pred" in case:
         rec["pred"] = case["pred"]
     return finish(rec, info, stores, case)
